@@ -365,7 +365,7 @@ def h_array_repr(dtype, values, lsb0=False):
 def conditions(tier):
     q = tier == 'quick'
     conds = []
-    T = 200 if q else 1200
+    T = 200 if q else 450
 
     def add(cid, fn, bounds, **params):
         conds.append(Cond(cid, fn, bounds, D, params, timeout=T, format_stub=False))
